@@ -26,12 +26,17 @@ MANIFEST = {
             "multiple of 32), words->value->words is the identity on u32 words, both arms agree, the VCD iterator and the FST byte "
             "string list bit i of the value MSB first. Tied to veryl_analyzer::value by exact comparison on all 4^w values for w<=5 "
             "(6 thorough) in both representations and random/boundary values up to 300 bits; the property's own predicates are "
-            "evaluated on the implementation's outputs.",
+            "evaluated on the implementation's outputs. End to end (validated, not proved): the real cosim entry points "
+            "(cosim_set / cosim_get / cosim_step_clock on sequences of ports of widths 1..128 into ONE reused destination buffer: "
+            "Annex H words of Simulator::get and zero padding of all four words) and real VCD dumps of a 4-state design "
+            "(every dumped value at every time = Simulator::get_var, including transitions where only mask_xz changes).",
     "note": "Trusted: Coq kernel; hand-written model coq/SvLogic/SvModel.v + coq/Value/ValueModel.v; our reading of Annex H; OCaml "
             "extraction (ExtrOcamlBasic) + driver cross-checked against vm_compute on a sample each run; vh-value harness; python "
-            "generator and oracle. No axioms. Hypotheses: payload and mask below 2^width (fits), aval/bval are u32 (words_ok). NOT "
-            "covered: the end-to-end waveform stream (Simulator::dump_variables -> vcd / fst-writer crates -> file) — only the "
-            "per-value renderings handed to those crates are modelled and compared; width is u32 in the code and unbounded in the model.",
+            "generator and oracle. No axioms. Hypotheses: payload and mask below 2^width (fits), aval/bval are u32 (words_ok). The "
+            "cosim and VCD streams (vh-wave harness, one fixed design with input/output/registered ports of widths 1, 8, 33, 70, 128; "
+            "VCD parsed in python) are differential validation against Simulator::get, outside the theorems. NOT covered: FST files "
+            "end to end (no reader installed; only to_fst_bits), hierarchical/array variables in dumps, the DPI caller side of cosim; "
+            "width is u32 in the code and unbounded in the model.",
 }
 
 COQ_PRE = """From VV Require Import Value.ValueModel SvLogic.SvModel.
@@ -245,6 +250,273 @@ def oracle_value(v, tosv, rtsv, fst, vcd):
     return bad
 
 
+# ------------------------------------------------------------------ end-to-end streams (vh-wave)
+DESIGN = """module Top (
+    clk : input  clock,
+    a1  : input  logic,
+    a8  : input  logic<8>,
+    a33 : input  logic<33>,
+    a70 : input  logic<70>,
+    a128: input  logic<128>,
+    y1  : output logic,
+    y8  : output logic<8>,
+    y33 : output logic<33>,
+    y70 : output logic<70>,
+    y128: output logic<128>,
+    q8  : output logic<8>,
+    q70 : output logic<70>,
+) {
+    assign y1   = a1;
+    assign y8   = a8;
+    assign y33  = a33;
+    assign y70  = a70;
+    assign y128 = a128;
+    always_ff {
+        q8  = a8;
+        q70 = a70;
+    }
+}
+"""
+IN_W = {"a1": 1, "a8": 8, "a33": 33, "a70": 70, "a128": 128}
+OUT_OF = {"y1": "a1", "y8": "a8", "y33": "a33", "y70": "a70", "y128": "a128"}
+ALL_VARS = ["a1", "a8", "a33", "a70", "a128", "y1", "y8", "y33", "y70", "y128", "q8", "q70"]
+
+
+def encode_words(p, m, w, n=4):
+    """Annex H words of a value, zero padded to n words"""
+    ws = []
+    for i in range(n):
+        if 32 * i < w:
+            pi = (p >> (32 * i)) & 0xffffffff
+            mi = (m >> (32 * i)) & 0xffffffff
+            ws.append((pi ^ mi, mi))
+        else:
+            ws.append((0, 0))
+    return ws
+
+
+def rand_pm(rng, w, four):
+    top = (1 << w) - 1
+    p = rng.choice([0, top, 1, 1 << (w - 1), rng.getrandbits(w), rng.getrandbits(w)])
+    m = 0
+    if four and rng.random() < 0.6:
+        m = rng.choice([top, 1, 1 << (w - 1), rng.getrandbits(w), (0xffffffff << (32 * rng.randrange((w + 31) // 32))) & top])
+    return p, m
+
+
+def cosim_cases(rng, path, n):
+    """sequences of cosim_set / cosim_get on ports of different widths into ONE reused buffer"""
+    lines = []
+    for k in range(n):
+        four = 1 if k % 4 != 3 else 0
+        ops = []
+        for _ in range(rng.randint(4, 9)):
+            a = rng.choice(list(IN_W))
+            p, m = rand_pm(rng, IN_W[a], four)
+            ws = encode_words(p, m, IN_W[a])
+            ops.append("set:%s:%s" % (a, ",".join("%d,%d" % ab for ab in ws)))
+            if rng.random() < 0.5:
+                ops.append("get:" + rng.choice(list(OUT_OF)))
+        # wide then narrow into the same buffer: stale upper words must be cleared
+        order = ["y128", rng.choice(["y1", "y8"]), "y70", "y33", rng.choice(["y1", "y8"]), "y128", "y70", "y8"]
+        ops += ["get:" + o for o in order]
+        ops.append("clk:clk")
+        ops += ["get:q8", "get:y128", "get:q70", "get:y1"]
+        lines.append("COSIM %d %s Top %s" % (four, path, " ".join(ops)))
+    return lines
+
+
+def check_cosim(line, out, note):
+    if not out.startswith("OK"):
+        note("cosim:panic", "cosim sequence panicked: %s" % line[:200], {"line": line})
+        return 0
+    n = 0
+    for part in out.split(" ; ")[1:]:
+        left, right = part.split(" | ")
+        t = left.split()
+        port = t[1]
+        words = [(int(t[2 + 2 * i]), int(t[3 + 2 * i])) for i in range(4)]
+        r = right.split()
+        p, m, w = int(r[1]), int(r[2]), int(r[3])
+        want = encode_words(p, m, w)
+        n += 1
+        if words != want:
+            k = next(i for i in range(4) if words[i] != want[i])
+            kind = "cosim_get:stale-padding" if 32 * k >= w else "cosim_get:annex-h"
+            note(kind, "cosim_get(%s) left word %d = %s in the destination, Simulator::get is payload %d mask %d width %d -> Annex H word %s "
+                       "(all 4 destination words: %s)" % (port, k, words[k], p, m, w, want[k], words), {"line": line, "port": port})
+    return n
+
+
+def dump_cases(rng, path, d, n):
+    lines = []
+    for k in range(n):
+        four = 1 if k % 3 != 2 else 0
+        out = os.path.join(d, "w%d.vcd" % k)
+        ops = []
+        cur = {}
+        for a, w in IN_W.items():
+            cur[a] = rand_pm(rng, w, four)
+            ops.append("set:%s:%d:%d:%d" % (a, cur[a][0], cur[a][1], w))
+        ops.append("start")
+        for _ in range(rng.randint(6, 12)):
+            for a, w in IN_W.items():
+                r = rng.random()
+                p, m = cur[a]
+                top = (1 << w) - 1
+                if r < 0.3:
+                    continue                                   # unchanged
+                if four and r < 0.6:
+                    # ONLY the mask changes: 0 <-> x, 1 <-> z on some bits
+                    m = m ^ rng.choice([top, 1, 1 << (w - 1), rng.getrandbits(w) or 1])
+                elif r < 0.8:
+                    p = p ^ rng.choice([top, 1, 1 << (w - 1), rng.getrandbits(w) or 1])
+                else:
+                    p, m = rand_pm(rng, w, four)
+                cur[a] = (p, m)
+                ops.append("set:%s:%d:%d:%d" % (a, p, m, w))
+            ops.append("step")
+        lines.append(("DUMP %d %s Top vcd %s clk %s %s" % (four, path, out, ",".join(ALL_VARS), " ".join(ops)), out))
+    return lines
+
+
+def parse_vcd(text):
+    """-> (name -> (id, width), [(time, id, bits)]) ; scalar changes become 1-character bit strings"""
+    names = {}
+    changes = []
+    t = 0
+    in_defs = True
+    toks = text.split()
+    i = 0
+    while i < len(toks):
+        k = toks[i]
+        if in_defs:
+            if k == "$var":
+                names[toks[i + 4]] = (toks[i + 3], int(toks[i + 2]))
+                i += 5
+            elif k == "$enddefinitions":
+                in_defs = False
+                i += 1
+            else:
+                i += 1
+            continue
+        if k.startswith("#"):
+            t = int(k[1:])
+        elif k.startswith("b") or k.startswith("B"):
+            changes.append((t, toks[i + 1], k[1:].lower()))
+            i += 1
+        elif k[0] in "01xzXZ" and len(k) > 1:
+            changes.append((t, k[1:], k[0].lower()))
+        i += 1
+    return names, changes
+
+
+def check_dump(line, vcd_path, out, note):
+    if not out.startswith("OK"):
+        note("dump:panic", "simulation with VCD dumping panicked: %s" % line[:200], {"line": line})
+        return 0
+    names, changes = parse_vcd(open(vcd_path).read())
+    samples = []
+    for part in out.split(" ; ")[1:]:
+        t = part.split()
+        vals = {}
+        for kv in t[2:]:
+            name, v = kv.split("=")
+            if v != "?":
+                p, m, w = v.split("/")
+                vals[name] = (int(p), int(m), int(w))
+        samples.append((int(t[1]), vals))
+    cur = {}
+    ci = 0
+    n = 0
+    for T, vals in samples:
+        while ci < len(changes) and changes[ci][0] <= T:
+            cur[changes[ci][1]] = changes[ci][2]
+            ci += 1
+        for name, (p, m, w) in vals.items():
+            if name not in names:
+                note("dump:missing-var", "variable %s is not declared in the VCD" % name, {"line": line})
+                continue
+            ident, vw = names[name]
+            want = "".join(bit4(("U", p, m, w, 0), i) for i in range(w - 1, -1, -1))
+            got = cur.get(ident)
+            n += 1
+            if got is None:
+                note("dump:no-value", "no value dumped for %s up to time %d; the simulator holds %s" % (name, T, want), {"line": line})
+                continue
+            # VCD allows left-truncated vectors (extension by 0, or by x/z when the leftmost bit is x/z)
+            if len(got) < w:
+                fill = got[0] if got[0] in "xz" else "0"
+                got = fill * (w - len(got)) + got
+            if got != want or vw != w:
+                note("dump:value", "time %d: the VCD holds %s = %s, Simulator::get gives %s (payload %d mask %d width %d)" % (T, name, got, want, p, m, w),
+                     {"line": line, "time": T, "var": name})
+    return n
+
+
+def e2e_streams(res, rng, tier, note):
+    ok, wbin, log = C.harness_build("vh-wave")
+    res.obligation("harness build vh-wave (cosim entry points + simulator with WaveDumper) from /repo working tree", ok, log[-400:])
+    if not ok:
+        res.violation("harness-build-wave", "the wave/cosim harness no longer builds against /repo: " + log[-300:], {"log": log[-2000:]}, no_input=True)
+        return 0
+    d = C.scratch_dir("c36")
+    try:
+        path = os.path.join(d, "top.veryl")
+        open(path, "w").write(DESIGN)
+        cl = cosim_cases(rng, path, 12 if tier == "quick" else 120)
+        dl = dump_cases(rng, path, d, 9 if tier == "quick" else 90)
+        outs = C.run_lines(wbin, cl + [x[0] for x in dl], timeout=900, nshards=8)
+        n = 0
+        for line, out in zip(cl, outs[:len(cl)]):
+            n += check_cosim(line, out, note)
+        m = 0
+        for (line, vcd), out in zip(dl, outs[len(cl):]):
+            m += check_dump(line, vcd, out, note)
+        res.coverage["cosim_get_calls_checked"] = n
+        res.coverage["vcd_values_compared_with_simulator_get"] = m
+        res.obligation("cosim_get: Annex H words + zero padding of the whole destination on %d calls (reused buffer, widths 1..128)" % n, n > 0)
+        res.obligation("VCD dump = Simulator::get at every dumped time: %d values (mask-only transitions included)" % m, m > 0)
+        return n + m
+    finally:
+        import shutil
+        shutil.rmtree(d, ignore_errors=True)
+
+
+def replay_e2e(res, rp):
+    """re-execute one recorded COSIM / DUMP line (scratch paths are re-created)"""
+    ok, wbin, log = C.harness_build("vh-wave")
+    res.obligation("harness build vh-wave from /repo working tree", ok, log[-400:])
+    if not ok:
+        res.violation("harness-build-wave", "the wave/cosim harness no longer builds", {"log": log[-2000:]}, no_input=True)
+        return res.finish()
+    d = C.scratch_dir("c36r")
+    found = {}
+
+    def note(key, text, r):
+        found.setdefault(key, (text, r))
+    try:
+        t = rp["line"].split()
+        path = os.path.join(d, "top.veryl")
+        open(path, "w").write(DESIGN)
+        t[2] = path
+        vcd = None
+        if t[0] == "DUMP":
+            vcd = os.path.join(d, "w.vcd")
+            t[5] = vcd
+        line = " ".join(t)
+        out = C.run_lines(wbin, [line], nshards=1)[0]
+        n = check_cosim(line, out, note) if t[0] == "COSIM" else check_dump(line, vcd, out, note)
+        res.coverage["evaluations"] = n
+        print("replay: %s ... -> %d values checked, %d predicate(s) violated" % (" ".join(t[:2]), n, len(found)))
+    finally:
+        import shutil
+        shutil.rmtree(d, ignore_errors=True)
+    for key, (text, r) in sorted(found.items()):
+        res.violation(key, text, {"line": rp["line"]})
+    return res.finish()
+
+
 def run(tier, seed, replay):
     res = C.Result(PID, "proof", tier, seed)
     res.coverage["trusted_base"] = C.std_trusted_base([
@@ -252,10 +524,12 @@ def run(tier, seed, replay):
         "our reading of IEEE 1800 Annex H (H.10.1.2): 0=(0,0) 1=(1,0) Z=(0,1) X=(1,1) as (aval, bval)",
         "OCaml extraction of the model (ExtrOcamlBasic only) + driver; a sample of each run is re-evaluated by vm_compute inside Coq",
         "vh-value harness (harness/value) calls the From impls, to_vcd_value, (&Value).into_iter(), to_fst_bits through the public API",
+        "vh-wave harness (harness/wave) includes crates/cosim/src/lib.rs by #[path] (the crate is a cdylib) and calls cosim_open/set/get/step_clock; "
+        "runs Simulator with WaveDumper::new_vcd; Simulator::get / get_var is the ground truth of the end-to-end streams; python VCD parser",
         "python oracle: Annex H / round trip / bit-string predicates on the implementation's outputs"])
     res.assumptions = ["payload and mask below 2^width (fits); aval and bval are u32 (words_ok)",
-                       "the waveform stream end to end (dump_variables, vcd / fst-writer crates, file contents vs Simulator::get) is NOT covered; "
-                       "only the per-value renderings handed to those crates"]
+                       "end-to-end streams (cosim entry points, VCD files) are validated against Simulator::get on one generated design family, not proved; "
+                       "FST files are not read back (no reader): only to_fst_bits is covered"]
     proved = C.prove(res, PID)
     ok, binary, log = C.harness_build("vh-value")
     res.obligation("harness build vh-value (debug) from /repo working tree", ok, log[-400:])
@@ -266,6 +540,8 @@ def run(tier, seed, replay):
     rng = random.Random(seed * 1000003 + 36)
     if replay:
         rp = json.load(open(replay))
+        if "line" in rp:
+            return replay_e2e(res, rp)
         vals = [tuple(rp["value"])] if "value" in rp else []
         words = [[tuple(x) for x in rp["words"]]] if "words" in rp else []
         if not vals and not words:
@@ -293,6 +569,10 @@ def run(tier, seed, replay):
     def note(key, text, rp):
         if key not in found:
             found[key] = (text, rp)
+
+    # --- end-to-end: real cosim entry points and real waveform dumps
+    if not replay:
+        res.coverage["evaluations"] += e2e_streams(res, rng, tier, note)
 
     # --- the property's oracle on the implementation's outputs
     for v, (tosv, rtsv, fst, vcd) in sorted(zip(vals, impl_v), key=lambda z: (z[0][3], z[0][1] + z[0][2])):
